@@ -65,6 +65,11 @@ def run_case(case, res):
                     fmeta = {} if fmeta_shared is None else fmeta_shared
                     if tgt == "path":
                         pth = os.path.join(tmp, "tree.nutree")
+                        if rng.random() < 0.3:
+                            # the file exists already and is longer than what is written now (an earlier, larger tree)
+                            with open(pth, "wb") as _fp:
+                                _fp.write(b'{"meta": {"$generator": "nutree/0"}, "nodes": [[0, "stale"]]}\n' * 2000)
+                            res.count("saves_over_a_longer_file")
                         t.save(pth, compression=comp, meta=user_meta, key_map=km, value_map=vm, **save_kw)
                         t2 = load_cls.load(pth, file_meta=fmeta, **load_kw)
                         if case["flavour"] == "fs":
